@@ -257,7 +257,11 @@ def _hasattr(e, st, node, o, name):
     if isinstance(v, RecV):
         return name.s in v.fields
     if isinstance(v, Arr):
+        if name.s == '__len__':
+            return True
         return name.s in ('shape', 'dtype', 'size', 'T', 'copy', 'astype') and not v.meta.get('list')
+    if isinstance(v, Tup) and name.s == '__len__':
+        return True
     return False
 
 
@@ -318,6 +322,11 @@ def _arr_sum(e, st, node, a, axis=None):
     need more than functional consistency unfold them with lemmas"""
     k = a.kind if a.kind != 'bool' else 'int'
     if axis is None or isinstance(axis, NoneV):
+        so = a.meta.get('slice_of') if a.ndim == 1 else None
+        if so is not None and so[0].ndim == 1 and not isinstance(so[0].term, tuple):
+            # sum of a contiguous slice base[lo:lo+n]: a ghost function of (base, lo, hi) - contracts define it by its recurrence
+            base_, lo_, n_ = so
+            return z3.Function('RANGESUM_%s' % k, base_.term.sort(), z3.IntSort(), z3.IntSort(), sort_of(k))(base_.term, lo_, lo_ + n_)
         f = z3.Function('SUM%d_%s' % (a.ndim, k), a.term.sort(), *[z3.IntSort()] * a.ndim, sort_of(k))
         s = f(a.term, *a.shape)
         if a.kind == 'bool' and a.ndim == 1:
@@ -396,6 +405,11 @@ def _arange(e, st, node, n, hi=None, step=None):
     a = e.lam(lambda i: lo + (i if one else e.nl_mul(i, sp)), (m,), 'int')
     a.meta = {'arange_of': (lo, hi, sp, m)}
     return e.new_obj(st, a)
+
+
+@prim('np.random.default_rng', 'np.random.RandomState', 'np.random.seed')
+def _rng(e, st, node, *a, **k):
+    return Opaque('rng')
 
 
 @prim('np.cumsum')
